@@ -213,6 +213,8 @@ def run_impl(case):
         CircularDependencyError = ()
 
     log = []
+    config_ref = {}    # section name -> configured content (filled below)
+    singleton_tok = {} # section name -> token, for contents that are falsy singletons
     contents = {}      # id(content object) -> token
     keep = []
     retvals = _ret_values()
@@ -224,7 +226,13 @@ def run_impl(case):
         rv = None if e["ret"] is None else retvals[e["ret"]]
 
         def digest(content):
-            log.append(["D", e["pid"], tok_of(content)])
+            # contents are identified by object identity; falsy singletons (None, 0, '', False, which YAML
+            # produces for `section:` / `section: 0` ...) by being the very value configured for this section
+            sec = sname(case, e["name"])
+            if sec in config_ref and content is config_ref[sec] and sec in singleton_tok:
+                log.append(["D", e["pid"], singleton_tok[sec]])
+            else:
+                log.append(["D", e["pid"], tok_of(content)])
             return rv
         digest._pid = e["pid"]
         if not e["plain"]:
@@ -266,10 +274,16 @@ def run_impl(case):
         if k == 0:
             c = {"version": 1}
         else:
-            c = [{"token": t}, [t], {"__token__": t, "nested": {"a": [1, 2]}}][t % 3]
+            # one section in five holds a falsy value: a present section with empty content is still present
+            c = [{"token": t}, [t], {"__token__": t, "nested": {"a": [1, 2]}}, {"token": t}, None, [t],
+                 {"token": t}, 0, [t], "", {"token": t}, False, [t], [], {"token": t}][t % 15]
         keep.append(c)
+        if c is None or c is False or c == 0 or c == "" and isinstance(c, (int, str, bool, type(None))):
+            if isinstance(c, (int, str, bool, type(None))):
+                singleton_tok[sname(case, k)] = t
         contents[id(c)] = t
         config[sname(case, k)] = c
+        config_ref[sname(case, k)] = c
 
     saved_dc = logging.config.dictConfig
     logging.config.dictConfig = lambda m: log.append(["L", tok_of(m)])
